@@ -187,6 +187,14 @@ func fitsLargest(t string) (bool, string) {
 	if a := asciiCodewords(t); a <= 1558 {
 		return true, fmt.Sprintf("even in plain ASCII encodation (%d codewords)", a)
 	}
+	for _, m := range []string{"05", "06"} {
+		hdr := "[)>\x1e" + m + "\x1d"
+		if strings.HasPrefix(t, hdr) && strings.HasSuffix(t, "\x1e\x04") && len(t) >= len(hdr)+2 {
+			if a := 1 + asciiCodewords(t[len(hdr):len(t)-2]); a <= 1558 {
+				return true, fmt.Sprintf("as a %s macro (one codeword for the envelope) with the body in plain ASCII encodation (%d codewords)", m, a)
+			}
+		}
+	}
 	n := len(latin1Bytes(t))
 	switch {
 	case n <= 249 && n+2 <= 1558, n+3 <= 1558:
